@@ -33,6 +33,13 @@ def gen_sample(rng, nrng):
     else:
         x = sts.gamma.rvs(rng.uniform(1, 4), scale=rng.uniform(0.3, 2), size=n, random_state=seed)
     x = np.asarray(x, dtype=float)
+    r = rng.random()
+    if r < 0.08:
+        x = x * rng.choice([1e-9, 1e-7, 1e-12])   # data recorded in a small unit: positive values far below 1e-8
+    elif r < 0.14:
+        x = np.asarray(sts.weibull_min.rvs(0.3, scale=1e-3, size=n, random_state=seed), dtype=float)   # heavy lower tail
+    elif r < 0.18:
+        x = x * rng.choice([1e6, 1e9])
     if rng.random() < 0.25:
         x[rng.sample(range(n), max(1, n // 50))] = 0.0
     return x
@@ -47,8 +54,9 @@ def gen_case(rng, nrng):
         # data as it comes out of a logger: whole numbers, handed over as an integer array or a list of ints
         scale = rng.choice([1, 10, 100])
         xi = np.round(x * scale)
-        c["x"] = [float(v) for v in xi]
-        c["dtype"] = rng.choice(["int64", "int32", "list"])
+        if len(set(xi[xi > 0])) >= 10 and xi.max() < 2 ** 31:   # (tiny-unit samples would round to all zeros: not a positive sample)
+            c["x"] = [float(v) for v in xi]
+            c["dtype"] = rng.choice(["int64", "int32", "list"])
     if wk == "array":
         kind = rng.randrange(3)
         w = np.random.default_rng(rng.randrange(10 ** 6)).uniform(0.2, 2.0, len(x))
@@ -150,7 +158,11 @@ def oracle(c):
         for f in (0.97, 1.03):
             e1 = EW._wlsq_error(d * f, xs, p, w)
             if e1 < e0 * (1 - 1e-3) - 1e-12:
-                return (dict(sig, clause="delta-local-min"), "delta=%r is not a local minimiser: error %r at delta*%r < %r" % (d, float(e1), f, float(e0)))
+                # does the error function end in nan just below delta?  (1 - p**(1/delta) rounds to 1 for the smallest plotting
+                # position: the optimiser cannot step into that region and stalls next to it)
+                cliff = bool(np.any(~np.isfinite([EW._wlsq_error(d * g, xs, p, w) for g in (0.96, 0.93, 0.9, 0.85, 0.8)])))
+                return (dict(sig, clause="delta-local-min", nan_cliff=cliff),
+                        "delta=%r is not a local minimiser: error %r at delta*%r < %r%s" % (d, float(e1), f, float(e0), " (the error function is nan just below delta)" if cliff else ""))
     return None
 
 
